@@ -3,6 +3,7 @@ import io
 import re
 
 import asm
+import core
 import gen
 import impl
 
@@ -98,9 +99,9 @@ def check_case(ctx, case):
     ctx.note("fragments={}".format(len(spans)))
     ctx.case({k: v for k, v in case.items() if k != "info"}, nontrivial=len(spans) >= 2)
     case2 = dict(case, pid=1, pname=2)
-    if ctx.evaluations % 3 == 0:
+    if core.pick(case, 3):
         # the same module objects built into more than one construct: provenance must not accumulate
-        asm.lifecycle(ctx, {k: v for k, v in case2.items() if k != "info"})
+        asm.lifecycle(ctx, case)
     ctx.op(asm.asm_op(case2), None)
 
 
